@@ -292,8 +292,8 @@ class StructureMetaType(MetaType):
             sizes[field._name] = stream.tell() - offset
             result[field._name] = value
 
-        if cls.__align__:
-            # Align the stream
+        if cls.__align__ and cls.alignment:
+            # Align the stream (a structure without fields has no alignment)
             stream.seek(-stream.tell() & (cls.alignment - 1), io.SEEK_CUR)
 
         # Using type.__call__ directly calls the __init__ method of the class
